@@ -80,12 +80,13 @@ type c18Stale struct {
 	Where      string // position of the consumer reached with a stale link
 }
 
-// c18StaleAnalysis: may-dataflow of the fact S = "o may have failed because
-// its path already existed, and the path has not been re-created by this call
-// since". S starts after the call, is dropped where the error is known nil,
-// known not to be the exists-error, and on the success edge of a later
-// creation of the same path with the same content.
-func c18StaleAnalysis(p *Prog, fn *ssa.Function, o *c18Op, ops []*c18Op) c18Stale {
+// c18StaleAnalysis: may-dataflow (over the expanded graph) of the fact S = "o
+// may have failed because its path already existed, and the path has not been
+// re-created by this call since". S starts after the call, is dropped where
+// the error is known nil, known not to be the exists-error, and on the success
+// edge of a later creation of the same path with the same content.
+func c18StaleAnalysis(g *c18Graph, o *c18Op, ops []*c18Op, bits map[*c18Edge]c18EdgeBits) c18Stale {
+	p := g.p
 	var out c18Stale
 	errv := c18ErrValue(o.Call)
 	type test struct {
@@ -105,68 +106,55 @@ func c18StaleAnalysis(p *Prog, fn *ssa.Function, o *c18Op, ops []*c18Op) c18Stal
 		}
 	}
 	want := o.Path.String()
-	allInstrs(fn, func(in ssa.Instruction) {
-		if c, ok := in.(*ssa.Call); ok && callIs(c, "os", "", "Readlink") {
+	for _, n := range g.nodes {
+		if c, ok := n.in.(*ssa.Call); ok && callIs(c, "os", "", "Readlink") {
 			out.Readlink = true
 		}
-	})
+	}
 	const (
 		S = 1 << iota
 		Rc
 	)
-	type edge struct{ from, to *ssa.BasicBlock }
-	recreate := map[edge]bool{}
+	var recreate uint64
 	for _, q := range ops {
 		if q.Kind == c18CreateExcl && q.Path.String() == want && q.Aux != nil && o.Aux != nil && q.Aux.String() == o.Aux.String() {
-			tests, _ := c18ErrTests(q.Call)
-			for _, t := range tests {
-				if t.Succ != t.Fail {
-					recreate[edge{t.If.Block(), t.Succ}] = true
-				}
-			}
+			recreate |= 1 << uint(q.idx)
 		}
 	}
-	ownSucc := map[edge]bool{}
-	{
-		tests, _ := c18ErrTests(o.Call)
-		for _, t := range tests {
-			if t.Succ != t.Fail {
-				ownSucc[edge{t.If.Block(), t.Succ}] = true
-			}
-		}
+	own := uint64(1) << uint(o.idx)
+	isO := map[*c18Node]bool{}
+	for _, n := range o.Nodes {
+		isO[n] = true
 	}
-	ff := &FlagFlow{Fn: fn, Must: false,
-		Transfer: func(in ssa.Instruction, st uint64) uint64 {
-			if in == ssa.Instruction(o.Call) {
+	ff := &c18Flow{g: g, Must: false,
+		Transfer: func(n *c18Node, st uint64) uint64 {
+			if isO[n] {
 				st |= S
 			}
 			return st
 		},
-		EdgeTransfer: func(from, to *ssa.BasicBlock, st uint64) uint64 {
-			e := edge{from, to}
-			if ownSucc[e] {
-				// error known nil: the link is ours
-				return st &^ S
+		Edge: func(e *c18Edge, st uint64) uint64 {
+			b := bits[e].succ
+			if b&own != 0 {
+				return st &^ S // error known nil: the link is ours
 			}
-			if recreate[e] {
+			if b&recreate != 0 {
 				if st&S != 0 {
 					st |= Rc
 				}
 				return st &^ S
 			}
-			if len(from.Instrs) > 0 && len(from.Succs) == 2 && from.Succs[0] != from.Succs[1] {
-				if ifi, ok := from.Instrs[len(from.Instrs)-1].(*ssa.If); ok {
-					if call, truth, ok := boolCallCond(ifi.Cond, from.Succs[0] == to); ok {
-						for _, t := range calls {
-							if t.call != call {
-								continue
-							}
-							if t.kind == "exist" && !truth {
-								return st &^ S
-							}
-							if t.kind == "other" && truth {
-								return st &^ S
-							}
+			if ifi, ok := e.from.in.(*ssa.If); ok && e.branch >= 0 && e.from.fr == o.Fr {
+				if call, truth, ok := boolCallCond(ifi.Cond, e.branch == 0); ok {
+					for _, t := range calls {
+						if t.call != call {
+							continue
+						}
+						if t.kind == "exist" && !truth {
+							return st &^ S
+						}
+						if t.kind == "other" && truth {
+							return st &^ S
 						}
 					}
 				}
@@ -177,7 +165,7 @@ func c18StaleAnalysis(p *Prog, fn *ssa.Function, o *c18Op, ops []*c18Op) c18Stal
 	for _, q := range ops {
 		if q.Kind == c18Rename && q.Aux != nil && q.Aux.String() == want {
 			out.Consumers++
-			if st, ok := ff.Before(q.Call); ok {
+			if st, ok := ff.BeforeAll(q.Nodes); ok {
 				if st&S != 0 {
 					out.StaleAtUse = true
 					out.Where = p.Pos(instrPos(q.Call))
